@@ -542,6 +542,8 @@ type LoopSpec struct {
 	Decreases  *Clause
 	Modifies   []string
 	Unrolled   bool
+	Abstract   bool   // the loop body is not verified (cut and havocked only); reported as an assumption
+	AbstractWhy string
 }
 
 // GhostStmt is a ghost statement anchored at a structural point of the function.
@@ -792,6 +794,9 @@ func (ss *SpecSet) loadSpecFile(path, pkg string) error {
 					return err
 				}
 				ls.Decreases = c
+			case "abstract":
+				ls.Abstract = true
+				ls.AbstractWhy = body
 			case "modifies":
 				ls.Modifies = append(ls.Modifies, splitTop(body)...)
 			default:
